@@ -381,6 +381,9 @@ func c10SweepUPCE(r *fw.Rec, vals []int, scale int) {
 	r.TallyN(fmt.Sprintf("sweep_upce_symbols_decoded_%dpx", scale), n)
 	r.TallyN(fmt.Sprintf("sweep_upce_valid_symbols_read_%dpx", scale), nvalid)
 	r.TallyN(fmt.Sprintf("sweep_upce_stale_symbols_%dpx", scale), n-nvalid)
+	if scale >= 2 {
+		r.Tally("upce_cases_decoding_stale_symbols_at_2px_or_more")
+	}
 }
 
 // c10SweepEAN8 decodes the symbols of all ten 8-digit strings of every payload in vals.
@@ -835,6 +838,7 @@ func c10(c *fw.Ctx) {
 	c.Assume("the verdict is on the matching reader. The multi-format reader (no hints) decodes the same images: returning the carried stale number itself is charged (check not enforced); a number of another format (e.g. the EAN-8 decoder reading digits 1-4 and 7-10 of a 12-digit symbol past an unanchored centre-guard search, check digit passing by chance) is outside the matching-reader oracle and only tallied (dont_care_multi_*); UPC-A reported as EAN-13 '0'+number counts as the carried number")
 	c.Assume("don't care (DESIGN C10): a 5-digit add-on with wrong parity reported as absent, as a 2-digit add-on or as another value; only 'reported as the 5-digit value' is charged. Same for a wrong-parity 2-digit add-on reported as another value")
 	c.Assume("Code 128 / Code 93 substitutions: 'same text' or any error are accepted, only different text is charged")
+	c.Assume("signature upce:stale-check-read-reversed-as-other-number: at >= 2 px per module the UPC-E reader, after refusing a stale-check symbol, retries the row reversed and matches digit windows that are 5..10 instead of 7 modules wide within its variance limits (0.48 average / 0.7 individual); about 0.2 % of all stale symbols then pass the check digit of the number so read. Every occurrence is tallied (stale_symbol_read_reversed-as_other_number_*), at most one event per case is emitted; denominators: substitutions_stale_upce, sweep_upce_stale_symbols_2px, upce_cases_decoding_stale_symbols_at_2px_or_more")
 	q := c.Quick()
 
 	// --- A. writers ---
@@ -954,6 +958,9 @@ func c10(c *fw.Ctx) {
 						return
 					}
 					r.NontrivialH(odHash("rd" + s.name + p))
+				}
+				if s == odUPCE {
+					r.Tally("upce_cases_decoding_stale_symbols_at_2px_or_more")
 				}
 				if i == 0 {
 					p := s.randPayload(r.Rng)
